@@ -6,7 +6,7 @@ pub(super) async fn read_chunks<R>(reader: &mut R) -> io::Result<Vec<Chunk>>
 where
     R: AsyncRead + Unpin,
 {
-    let n_chunk = reader.read_u32_le().await.and_then(|n| {
+    let n_chunk = reader.read_i32_le().await.and_then(|n| {
         usize::try_from(n).map_err(|e| io::Error::new(io::ErrorKind::InvalidData, e))
     })?;
 
